@@ -148,6 +148,34 @@ Definition ok_truthful (obs : list stepobs) : bool :=
                                    end) items
                     | _ => true end) (emissions obs).
 
+Definition staged_canceled (u : Z) (e : emission) : bool :=
+  match e with
+  | EAdv SStaging items _ => existsb (fun i : item => let '(v, _, t) := i in (v =? u) && tgt_eqb t TgCanceled) items
+  | _ => false end.
+
+(* ---- CANCELED only if the process was running when cancel_task polled it ----
+   Per uid and per thread that can run cancel_task (intake: late check; control;
+   timeout watcher) the result of that thread's last proc.poll() on the task
+   is tracked.  A task may be handed on as CANCELED (staged with target
+   CANCELED) by a thread only if that thread's last poll of it reported a
+   RUNNING process: cancel_task never takes over a task whose process had
+   exited before the poll, whatever its exit code (0 included) -- such a task
+   "had already finished" and keeps its own outcome. *)
+Definition pol_ev (u : Z) (b : bool) (e : event) : bool :=
+  let '(k, v, a) := e in if (k =? K_POLL) && (v =? u) then a =? 0 else b.
+Definition pol_upd (u : Z) (t th : thread) (es : list event) (b : bool) : bool :=
+  if thread_eqb t th then fold_left (pol_ev u) es b else b.
+Fixpoint ok_polled_from (u : Z) (pI pC pT : bool) (obs : list stepobs) : bool :=
+  match obs with
+  | [] => true
+  | (t, es, ms) :: r =>
+      let pI' := pol_upd u t ThI es pI in let pC' := pol_upd u t ThC es pC in let pT' := pol_upd u t ThT es pT in
+      let cur := match t with ThI => pI' | ThC => pC' | ThT => pT' | _ => false end in
+      (negb (existsb (staged_canceled u) ms) || cur) && ok_polled_from u pI' pC' pT' r
+  end.
+Definition ok_cancel_polled (dl : list Z) (obs : list stepobs) : bool :=
+  forallb (fun u => ok_polled_from u false false false obs) dl.
+
 (* ---- a named task that was launched is examined for cancellation after it
         entered the executor's registry ----
    Per uid, over the recorded actions (with the thread that performed them):
@@ -184,7 +212,7 @@ Definition ok_named_examined (sc : scenario) (obs : list stepobs) (q : bool) : b
 Definition c07_clauses (sc : scenario) (obs : list stepobs) (q : bool) : list bool :=
   let dl := delivered sc in let ems := emissions obs in
   [ ok_announced dl q ems; ok_handed_on dl q ems; ok_unscheduled dl q ems; ok_not_both dl ems;
-    ok_outcome_attached ems; ok_order dl ems; ok_truthful obs; ok_named_examined sc obs q ].
+    ok_outcome_attached ems; ok_order dl ems; ok_truthful obs; ok_named_examined sc obs q; ok_cancel_polled dl obs ].
 
 Definition c07_row (sc : scenario) (sched : list choice) (obs : list stepobs) (q : bool) (fin : final) : list bool :=
   corr_bit sc sched obs q fin :: c07_clauses sc obs q.
@@ -198,11 +226,6 @@ Fixpoint events_before (p : emission -> bool) (obs : list stepobs) : option (lis
       if existsb p ms then Some es
       else match events_before p r with Some l => Some (es ++ l) | None => None end
   end.
-Definition staged_canceled (u : Z) (e : emission) : bool :=
-  match e with
-  | EAdv SStaging items _ => existsb (fun i : item => let '(v, _, t) := i in (v =? u) && tgt_eqb t TgCanceled) items
-  | _ => false end.
-
 (* a task handed on as CANCELED by cancel_task has no running process: it was killed or had exited *)
 Definition ok_canceled_stopped (dl : list Z) (obs : list stepobs) : bool :=
   forallb (fun u => match events_before (staged_canceled u) obs with
@@ -263,7 +286,7 @@ Definition ok_bystanders (sc : scenario) (obs : list stepobs) (q : bool) : bool 
 
 Definition c08_exec_clauses (sc : scenario) (obs : list stepobs) (q : bool) : list bool :=
   [ ok_named_end sc q (emissions obs); ok_canceled_stopped (delivered sc) obs; ok_later_met sc obs;
-    ok_bystanders sc obs q; ok_named_examined sc obs q ].
+    ok_bystanders sc obs q; ok_named_examined sc obs q; ok_cancel_polled (delivered sc) obs ].
 
 Definition c08_exec_row (sc : scenario) (sched : list choice) (obs : list stepobs) (q : bool) (fin : final) : list bool :=
   corr_bit sc sched obs q fin :: c08_exec_clauses sc obs q.
